@@ -95,6 +95,29 @@ def observe_vdb(location):
     return out
 
 
+XPAK_KEYS = ("DESCRIPTION", "SLOT", "USE", "IUSE", "DEPEND", "RDEPEND", "EAPI", "KEYWORDS", "LICENSE", "CFLAGS", "HOMEPAGE")
+
+
+def _raw_xpak(path):
+    """What the .tbz2 on disk itself says (xpak segment read directly from the file, no repository, no cache)."""
+    out = {}
+    try:
+        from pkgcore.binpkg.xpak import Xpak
+
+        x = Xpak(path)
+        for k in XPAK_KEYS:
+            try:
+                v = x.get(k)
+            except Exception as e:  # noqa: BLE001
+                v = "<exc %s>" % type(e).__name__
+            if isinstance(v, bytes):
+                v = v.decode("utf-8", "replace")
+            out["xpak:" + k] = None if v is None else str(v).strip()
+    except Exception as e:  # noqa: BLE001
+        out["xpak"] = "<unreadable %s>" % type(e).__name__
+    return out
+
+
 def observe_binpkg(location):
     import logging
 
@@ -111,7 +134,14 @@ def observe_binpkg(location):
     for p in pkgs:
         path = pjoin(location, p.category, "%s-%s.tbz2" % (p.package, p.fullver))
         meta = _read_pkg(p)
-        out["pkgs"][p.cpvstr] = {"meta": meta, "files": {}}
+        # more keys the Packages cache may serve instead of the file (a listed package must be ONE build)
+        for attr in ("keywords", "iuse", "license", "defined_phases", "homepage", "cflags", "chost"):
+            try:
+                v = getattr(p, attr)
+                meta[attr] = " ".join(sorted(map(str, v))) if isinstance(v, (tuple, list, set, frozenset)) else str(v)
+            except Exception as e:  # noqa: BLE001
+                meta[attr] = "<exc %s>" % type(e).__name__
+        out["pkgs"][p.cpvstr] = {"meta": meta, "files": _raw_xpak(path)}
     try:
         for cat in sorted(os.listdir(location)):
             cd = pjoin(location, cat)
